@@ -149,6 +149,8 @@ structure M where
   ourResetPending : Bool := false    -- C07: our own reset Logon is out and no Logon has been accepted since (= sentReset)
   -- C04 / C20
   fromLogonGap : Bool := false
+  /-- C04 ghost: the last number of the gap a ResendRequest is outstanding for (independent of the engine's own state) -/
+  gapEnd : Option Int := none
   hb : Int := 0
   inbox : List InMsg := []
   inboxP : List Plant := []          -- C06: the generator's annotations of the buffered messages (parallel to `inbox`)
@@ -320,7 +322,12 @@ def c04 (ms : M) (e : Event) : List String :=
     | _ => false
   let badLeft := if recBefore && e.after.st == "InSession" && prev.stash.contains e.after.T && !processed e.after.T
                  then ["C04.kept_message_not_delivered"] else []
-  badReq ++ badCount ++ badKeep ++ badLeft
+  -- (d) while a gap is being recovered (a ResendRequest is out, the expected number has not passed the gap, same connection,
+  -- no chunking) no further ResendRequest goes out — whatever the engine's own bookkeeping says about its state
+  let badSecond := match ms.gapEnd with
+    | some g => if cfg.chunk == 0 && !rrs.isEmpty && ms.T ≤ g && stLoggedOn prev.st && !recBefore then ["C04.second_request_during_recovery"] else []
+    | none => []
+  badReq ++ badCount ++ badKeep ++ badLeft ++ badSecond
 
 /-! ## C06: the gate in front of the application, the mandated reactions, the shape of Rejects -/
 
@@ -845,6 +852,17 @@ def monitorStep (ms : M) (e : Event) : M × List String :=
          else ms.ourResetPending),
       fromLogonGap := if ms.prev.st == "Logon" && inRecovery e.after.st then true
                       else if !inRecovery e.after.st then false else ms.fromLogonGap,
+      gapEnd :=
+        (let rrs := rrWithT ms.T (dropOldWires ms.prev.q e.items)
+         let resetSeen := e.items.any fun i => match i with | .store ["reset"] => true | _ => false
+         if !stLoggedOn e.after.st || resetSeen then none
+         else match ms.gapEnd with
+           | some g => if t' > g then none else some g
+           | none =>
+             if rrs.isEmpty then none
+             else match (inboundOf ms e.op).bind (fun m => (viewOf ms.cfg m (plantOf ms e)).seq) with
+               | some n => if n > t' then some (n - 1) else none
+               | none => none),
       hb := hb', inbox := inbox', inboxP := inboxP', stored := storedAfter ms e }
     (ms', panic ++ b01 ++ b02 ++ b03 ++ b04 ++ b06 ++ b07 ++ s08.bad ++ b08t ++ b20)
 
